@@ -56,3 +56,16 @@ func (s *Service) VerifRawDelete(_ context.Context, key []byte) error {
 		return txn.Delete(key)
 	})
 }
+
+// VerifRawDeleteAll removes the records stored under the given keys in one transaction.
+func (s *Service) VerifRawDeleteAll(_ context.Context, keys [][]byte) error {
+	return s.store.db.Update(func(txn *badger.Txn) error {
+		for _, key := range keys {
+			if err := txn.Delete(key); err != nil {
+				return err
+			}
+		}
+
+		return nil
+	})
+}
